@@ -380,7 +380,7 @@ def case_strategy(draw, max_ops=6):
                 probes = []
                 sh2 = _shadow(shape)
                 for _p in range(draw(st.integers(1, 2))):
-                    kind = draw(st.sampled_from(['idx', 'idx', 'sum', 'T', 'reshape', 'flatten']))
+                    kind = draw(st.sampled_from(['idx', 'idx', 'sum', 'T', 'reshape', 'flatten'] + (['tril', 'triu', 'diag'] if len(shape) == 2 else [])))
                     if kind == 'idx':
                         spec = _index_ir(draw, shape)
                         sh2[_np_index(spec)]
@@ -391,6 +391,10 @@ def case_strategy(draw, max_ops=6):
                         probes.append(['T', ['hole']])
                     elif kind == 'flatten':
                         probes.append(['flatten', ['hole']])
+                    elif kind in ('tril', 'triu'):
+                        probes.append([kind, ['hole'], draw(st.integers(-2, 2))])
+                    elif kind == 'diag':
+                        probes.append(['diag', ['hole'], 0, True])
                     else:
                         probes.append(['reshape', ['hole'], draw(st.sampled_from(_factorisations(int(np.prod(shape)))))])
                 node = ['tee', node, probes]
@@ -609,6 +613,15 @@ def _interp(node, objs, npvals, stats, func_style, vecs=None):
                 interp(pr, objs, npvals, stats, func_style, (vecs[0], vecs[1], (a, av)) if vecs is not None else (None, None, (a, av)))
             except Unsupported:
                 pass
+            # a side read must not change the object it read
+            if vecs is not None and vecs[0] is not None:
+                try:
+                    rv = eval_rsome(a, vecs[0], vecs[1])
+                except (Unsupported, AssertionError):
+                    rv = None
+                if rv is not None and (rv.shape != np.asarray(av, dtype=float).shape or not np.allclose(rv, av, rtol=1e-9, atol=1e-9)):
+                    raise Mismatch('operand_changed', pr[0], 'reading %s of an expression changed the expression itself: now %s, was %s' % (
+                        pr[0], np.asarray(rv).tolist(), np.asarray(av, dtype=float).tolist()))
         return a, av
     if op == 'const':
         return _const_from_ir(node[1]), np.asarray(_dense(node[1]), dtype=float)
